@@ -127,6 +127,13 @@ trait ExternalInfo {
     fn update_cum_strat(&mut self);
 
     fn next_update<'a>(&mut self, player: &'a Player) -> &'a Node {
+        #[cfg(cfr_verif)]
+        cfr_verif_seam::visit(
+            cfr_verif_seam::VISIT_EXT_SAMPLED,
+            player.num == PlayerNum::Two,
+            player.infoset,
+            player as *const Player as usize,
+        );
         self.update_cum_strat();
         self.next(player)
     }
@@ -252,6 +259,13 @@ fn recurse_regret<const FIRST: bool>(
             ),
             Node::Player(player) => match (player.num, FIRST) {
                 (PlayerNum::One, true) | (PlayerNum::Two, false) => {
+                    #[cfg(cfr_verif)]
+                    cfr_verif_seam::visit(
+                        cfr_verif_seam::VISIT_EXT_ACTIVE,
+                        player.num == PlayerNum::Two,
+                        player.infoset,
+                        node as *const Node as usize,
+                    );
                     active_player_infosets[player.infoset].recurse(player, |next| {
                         recurse_regret::<FIRST>(
                             next,
